@@ -68,6 +68,11 @@ def unhexf(s):
     return struct.unpack("<d", struct.pack("<Q", int(s, 16)))[0]
 
 
+# (engine, case id, case text, payload of the repetition on a thread of its own) for every case whose result on the
+# shared thread differs from its result in isolation
+ALT_DIFFS = []
+
+
 def run_harness(binary, engine, cases, deadline=20.0, env_extra=None):
     """cases: list of (id, text).  Returns {id: payload}; payload is the text after `RES id `,
     or 'TIMEOUT' / 'ABORT <status>' when the worker hung or died on that case (the worker is
@@ -109,7 +114,10 @@ def run_harness(binary, engine, cases, deadline=20.0, env_extra=None):
                 break
             if line is None:
                 break
-            if line.startswith("BEGIN "):
+            if line.startswith("ALT "):
+                parts = line.rstrip("\n").split(" ", 2)
+                ALT_DIFFS.append((engine, parts[1], dict(pending).get(parts[1], "")[:3000], parts[2] if len(parts) > 2 else ""))
+            elif line.startswith("BEGIN "):
                 current = line.split()[1]
             elif line.startswith("RES "):
                 parts = line.rstrip("\n").split(" ", 2)
@@ -200,6 +208,13 @@ class Run:
 
     def finish(self):
         self.coverage.setdefault("samples", [])
+        # a call whose result depends on what ran before it on the thread (thread-local caches, counters, tables)
+        for engine, cid, text, alt in ALT_DIFFS[:3]:
+            self.violation({"what": "the same call gives one result on a thread that has run other cases before and another on a "
+                                    "thread of its own: the result depends on state that outlives a call",
+                            "harness": "%s %s" % (engine, text), "result_in_isolation": alt[:1500],
+                            "cases_with_such_a_difference": len(ALT_DIFFS)})
+        self.coverage["history_twins"] = "every case ran on the shared thread and again on a thread of its own; results differing: %d" % len(ALT_DIFFS)
         ev = {
             "property_id": self.prop,
             "tier": self.tier,
